@@ -51,12 +51,12 @@ KANI = {
         K("c11::p_c11_linear_impls", "Plushy of two close markers; Vector / Bitstring of length <= 3", "Linear::size / gene_mut of Plushy, Vector, Bitstring"),
         K("c11::p_c11_with_rate_vec_n5", "genome length <= 5", "WithRate on Vec<T>", "thorough"),
         K("c11::p_c11_with_rate_bitstring_n5", "genome length <= 5", "WithRate on Bitstring", "thorough"),
-        K("c11::p_c11_umad_vector_n2", "parent length <= 2 (array-backed Linear genome)", "Umad::mutate structure", "thorough"),
     ],
     "C12": [
         K("c11::p_c12_with_rate_threshold", "all words, all rates in [0,2] (loop-free apart from the 2-gene genome)", "flip <=> uniform_f32(w) < rate (constant stream)"),
         K("c11::p_c12_umad_threshold", "all words; rates from {0,.25,.5,.875,1}; parent length 1", "UMAD coins are Bernoulli(addition_rate)/Bernoulli(deletion_rate), new genes subject to deletion"),
         K("c11::p_c11_one_over_length_vec", "genome length <= 3, " + RNG, "rate applied is exactly 1/length"),
+        K("c11::p_c11_umad_empty", "empty parent; rates from {0,.25,.5,.875,1}; " + RNG, "Umad::{new,new_with_empty_rate,new_without_empty}: the configured empty-genome addition rate is the one applied (and is not confused with the deletion rate)"),
         K("c10::p_c10_uniform_vec", "genome length <= 3; " + RNG, "uniform crossover: one fair word per position, every origin pattern reachable"),
         K("c10::p_c10_uniform_bitstring", "genome length <= 3; " + RNG, "uniform crossover via Crossover (Bitstring): one fair word per position, every origin pattern reachable"),
         K("c18::p_c12_bool_generator", "all words; p from {0,.25,.5,.875,1}", "BoolGenerator / random_with_probability threshold p*2^64"),
@@ -128,10 +128,8 @@ KANI = {
     "C16": [
         K("c16::p_c16_selectors", "population 3; 6 symbolic words", "Tournament, Random run twice from equal generator states", entropy_guard=True),
         K("c16::p_c16_weighted", "population 2; 6 symbolic words", "WeightedPair run twice from equal generator states", entropy_guard=True),
-        K("c16::p_c16_lexicase", "2 individuals x 1 case; 6 symbolic words", "Lexicase twice", "thorough", entropy_guard=True),
         K("c16::p_c16_variation", "genome length 2-3; 6 symbolic words", "TwoPointXo, UniformXo, WithRate twice", entropy_guard=True),
         K("c16::p_c16_generators", "sizes 2-3; 6 symbolic words", "Bitstring::random*, OneOfCloning, collection generator, IndividualGenerator twice", entropy_guard=True),
-        K("c16::p_c16_umad", "parent length 1", "Umad twice", "thorough", entropy_guard=True),
         K("c16::p_c16_umad_empty", "empty parent, empty-addition rate 1", "Umad's empty-genome branch twice", entropy_guard=True),
     ],
     "C17": [
@@ -161,7 +159,6 @@ KANI = {
         K("c19::p_c19_sizes", "all usize sizes / step limits; 4 call orders (loop-free)", "with_max_stack_size / with_<stack>_max_size / with_instruction_step_limit on the real PushState builder", complete=True),
         K("c19::p_c19_values_int", "3 int values; maximum 0..=3", "with_int_values: first supplied on top, overflow; generated accessors"),
         K("c19::p_c19_values_bool_float", "2 bool, 1 float value; maximum 2", "with_bool_values / with_float_values; generated accessors"),
-        K("c19::p_c19_inputs", "2 named inputs, two declaration orders", "with_<stack>_input order independence (state equality)", "thorough"),
         K("c04::p_c04_bulk", "prior depth 0..=2, 0..=3 items, maximum depth-1..=depth+1; sizes that do not add up in a usize", "Stack::push_many (what with_<stack>_values / with_program load through)"),
         K("c19::p_c19_alt_sizes", "second state type AltState (hook; renamed builder stacks, other field order, exec field `work`): all usize sizes / step limits; 3 call orders (loop-free)", "with_max_stack_size / with_flags_max_size / with_counters_max_size; generated accessors address their fields (pointer equality)", complete=True),
         K("c19::p_c19_alt_values", "AltState: 3 int values through with_counters_values; maximum 0..=3", "with_<renamed>_values: first supplied on top, overflow"),
